@@ -6,12 +6,16 @@
 // else is the real thing.
 package bsync
 
-import "sync"
+import (
+	"sync"
+
+	"github.com/welllog/golib/zzsim/core"
+)
 
 type (
 	WaitGroup = sync.WaitGroup
 	Once      = sync.Once
-	Pool      = sync.Pool
+	Pool      = core.Pool
 	Map       = sync.Map
 	Locker    = sync.Locker
 	Cond      = sync.Cond
